@@ -407,7 +407,8 @@ func allocateFromScope(requirements *GPURequirements, scope *GPUTopologyScope, a
 			scopeLevelContext.contextOfDevices[minor] = contextOfDevice
 			contextOfDevice.satisfied, _ = quotav1.LessThanOrEqual(requirements.requestsPerGPU, freeResources)
 			_, belongToTotal := allocateContext.deviceTotal[minor]
-			contextOfDevice.satisfied = contextOfDevice.satisfied && belongToTotal
+			contextOfDevice.satisfied = contextOfDevice.satisfied && belongToTotal &&
+				gpuDerivedRequestFits(requirements.requestsPerGPU, allocateContext.deviceTotal[minor], freeResources)
 			if contextOfDevice.satisfied && requirements.gpuShared && allocateContext.allocationScorer != nil {
 				contextOfDevice.score = allocateContext.allocationScorer.scoreDevice(requirements.requestsPerGPU, freeResources, totalResources)
 			}
